@@ -464,7 +464,7 @@ def x_cases(rng, big):
     for c in x_small_cases():
         ub = steps_upper(c, c['threads'][0])
         for k in range(0, ub + 1):
-            for style in range(2):
+            for style in (range(2) if big else [k % 2]):
                 d = dict(c)
                 d['kind'] = 'xcrash'
                 d['threads'] = c['threads'] + [viewer(c, all_flavours(c, k + style * 3, ['CC', 'MC', 'CA', 'BC'][k % 4]), [10, 1][style])]
@@ -483,7 +483,7 @@ def x_cases(rng, big):
             cases.append(d)
     # (x3) random: exclusive publisher (offers and claims with setters, commit / abort) or shared claimants (+ a shared publisher),
     #      a subscriber with random flavours, bounds and handler scripts; a third with a crash point
-    for i in range(3000 if big else 160):
+    for i in range(3000 if big else 130):
         bits = rng.choice([10, 10, 11])
         tl = 1 << bits
         mtu = rng.choice([64, 96, 256])
